@@ -98,7 +98,9 @@ func refOracle(w *worldRun) (string, string) {
 			return fmt.Sprintf("%s reported success but did not commit", res.Spec.Name), "ref-ok-no-row"
 		case res.Answered && res.Class != "ok" && committed:
 			return fmt.Sprintf("%s reported %s but its transaction is committed", res.Spec.Name, res.Class), "ref-error-with-row"
-		case res.Answered && res.Class != "ok" && res.Class != "conflict" && res.Class != "insufficient" && res.Class != "panic":
+		case res.Answered && res.Class != "ok" && res.Class != "conflict" && res.Class != "insufficient" && res.Class != "panic" &&
+			!w.Spec.FaultReads && !w.Spec.FaultInsert && !res.Spec.Cancellable:
+			// (an attempt that fails for its own reason - injected store failure, cancelled by its caller - keeps that reason)
 			return fmt.Sprintf("%s lost the reference but reported %s (%v) instead of a conflict", res.Spec.Name, res.Class, res.Err), "ref-wrong-error"
 		}
 		// somebody else committed the reference and this attempt ran its check afterwards => conflict, nothing else
@@ -244,13 +246,14 @@ func eventOracle(w *worldRun) (string, string) {
 		}
 	}
 	if !w.Crashed {
+		// every persisted change is published at least once (whatever its request was told)
 		for _, res := range w.Results {
-			if res.Class != "ok" || res.Spec.DryRun {
+			if res.Spec.DryRun {
 				continue
 			}
 			for _, l := range rowFor(res.Spec, logs, w.SeedLen) {
 				if matched[l] == 0 {
-					return fmt.Sprintf("%s succeeded and is persisted but no event was published for it", res.Spec.Name), "event-missing:" + res.Spec.Kind
+					return fmt.Sprintf("the change made by %s (answer: %s) is persisted but no event was published for it", res.Spec.Name, res.Class), "event-missing:" + res.Spec.Kind
 				}
 			}
 		}
